@@ -141,8 +141,54 @@ def replay_input(target, data, timeout=120, libfuzzer_timeout=100, strict=False)
     finally:
         shutil.rmtree(d, ignore_errors=True)
 
+# ---------------------------------------------------------------------------------------------------
+# hostile-structure lane (structured stress the byte mutator will not invent); run by worker 0 through xvexec
+# ---------------------------------------------------------------------------------------------------
+def hostile_docs(tier):
+    big = tier == 'thorough'
+    D = 20000 if big else 4000
+    docs = []
+    docs.append(('deep-nesting', ['sax2', 'sax1'], '<a>' * D + 'x' + '</a>' * D, {}))
+    docs.append(('deep-nesting-ns', ['sax2'], ''.join('<p%d:e xmlns:p%d="urn:%d">' % (i % 50, i % 50, i) for i in range(D // 4)) + ''.join('</p%d:e>' % (i % 50) for i in reversed(range(D // 4))), {}))
+    docs.append(('many-attributes', ['sax2', 'dom'], '<a ' + ' '.join('a%d="%d"' % (i, i) for i in range(D)) + '/>', {}))
+    docs.append(('long-name', ['sax2', 'dom'], '<' + 'n' * 70000 + ' ' + 'm' * 40000 + '="v"/>', {}))
+    docs.append(('long-attr-value', ['sax2', 'dom'], '<a v="' + 'x&amp;\u00e9' * 20000 + '"/>', {}))
+    docs.append(('long-text-cdata-comment-pi', ['sax2', 'dom'], '<a>' + 't' * 70000 + '<![CDATA[' + 'c' * 70000 + ']]><!--' + 'k' * 70000 + '--><?p ' + 'd' * 70000 + '?></a>', {}))
+    docs.append(('xmldecl-padding', ['sax2'], '<?xml version="1.0"' + ' ' * 20000 + 'encoding="UTF-8"' + ' ' * 20000 + '?><a/>', {}))
+    docs.append(('doctype-long-ids', ['sax2', 'dom'], '<!DOCTYPE a PUBLIC "' + 'p' * 50000 + '" "' + 's' * 50000 + '.dtd" [<!ENTITY e "' + 'v' * 60000 + '">]><a>&e;</a>', {}))
+    docs.append(('entity-tower-at-limit', ['sax2', 'dom'], '<!DOCTYPE a [<!ENTITY e0 "x">' + ''.join('<!ENTITY e%d "&e%d;">' % (i + 1, i) for i in range(98)) + ']><a>&e98;</a>', {}))
+    docs.append(('optional-run-content-model', ['sax2'], '<!DOCTYPE a [<!ELEMENT a (' + ','.join(['b?'] * 200) + ')><!ELEMENT b EMPTY>]><a>' + '<b/>' * 100 + '</a>', {'val': 1}))
+    docs.append(('nested-content-model', ['sax2'], '<!DOCTYPE a [<!ELEMENT a ' + '(' * 600 + 'b' + ')*' * 600 + '><!ELEMENT b EMPTY>]><a><b/></a>', {'val': 1}))
+    docs.append(('many-entities-decl', ['sax2', 'dom'], '<!DOCTYPE a [' + ''.join('<!ENTITY x%d "%d">' % (i, i) for i in range(D)) + ']><a>&x7;</a>', {}))
+    docs.append(('many-ids', ['sax2'], '<!DOCTYPE a [<!ELEMENT a (b*)><!ELEMENT b EMPTY><!ATTLIST b i ID #REQUIRED r IDREF #IMPLIED>]><a>' + ''.join('<b i="i%d" r="i%d"/>' % (i, (i * 7) % D) for i in range(D)) + '</a>', {'val': 1}))
+    xsd = '<xs:schema xmlns:xs="http://www.w3.org/2001/XMLSchema"><xs:element name="r"><xs:complexType><xs:sequence><xs:element name="a" minOccurs="0" maxOccurs="1000000000"/>' \
+          '<xs:sequence minOccurs="2" maxOccurs="40"><xs:element name="b" minOccurs="0" maxOccurs="2"/><xs:element name="c"/></xs:sequence></xs:sequence></xs:complexType></xs:element></xs:schema>'
+    docs.append(('huge-maxoccurs', ['sax2', 'dom'], '<r xmlns:xsi="http://www.w3.org/2001/XMLSchema-instance" xsi:noNamespaceSchemaLocation="h.xsd">' + '<a/>' * 50 + '<b/><c/><c/>' + '</r>', {'val': 1, 'schema': 1, 'fullcheck': 0, 'ent:h.xsd': xsd}))
+    return docs
+
+def hostile_lane(ctx):
+    S = ctx.stats; ex = ctx.executor('xvexec')
+    for name, apis, text, opt in hostile_docs(ctx.tier):
+        for api in apis:
+            for scanner in (['IG', 'DG'] if '<!DOCTYPE' in text else ['IG', 'WF', 'SG']):
+                feat = 'ns=1;scanner=%s;val=%d;schema=%d;fullcheck=%d;secmgr=100' % (scanner, opt.get('val', 0), opt.get('schema', 0), opt.get('fullcheck', 0))
+                req = {'kind': 'parse', 'api': api, 'feat': feat, 'doc': text.encode('utf-8')}
+                for k, v in opt.items():
+                    if k.startswith('ent:'): req[k] = v.encode()
+                S.evaluations += 1; S.labels['hostile:' + name] += 1; S.nontrivial.add('hostile:%s:%s:%s' % (name, api, scanner))
+                try:
+                    resp = ex.request(req, timeout=90)
+                    if 'EXC\tFOREIGN' in resp:
+                        S.failures.append({'case': {'hostile': name, 'api': api, 'feat': feat, 'tier': ctx.tier}, 'detail': 'foreign exception from parse() on hostile document %s' % name})
+                except xv.ExecutorDied as e:
+                    if e.rc in (-9,) and 'ERROR' not in e.stderr: S.inconclusive += 1; S.labels['hostile-watchdog:' + name] += 1; continue
+                    S.failures.append({'case': {'hostile': name, 'api': api, 'feat': feat, 'tier': ctx.tier}, 'detail': 'executor died rc=%s on hostile document %s\n%s' % (e.rc, name, e.stderr[-3000:])})
+
 def worker(ctx):
     S = ctx.stats
+    if ctx.worker == 0:
+        try: hostile_lane(ctx)
+        finally: ctx.close()
     target = ASSIGN[ctx.worker % len(ASSIGN)]
     if ctx.nworkers < len(ASSIGN):
         target = ['fz_parse', 'fz_xsd', 'fz_dtd', 'fz_parse', 'fz_regex', 'fz_xsvalue', 'fz_parse', 'fz_parse'][ctx.worker % 8]
@@ -179,6 +225,20 @@ def worker(ctx):
         shutil.rmtree(base, ignore_errors=True)
 
 def replay(case, ctx):
+    if 'hostile' in case:
+        ex = ctx.executor('xvexec')
+        for name, apis, text, opt in hostile_docs(case.get('tier', 'quick')):
+            if name != case['hostile']: continue
+            req = {'kind': 'parse', 'api': case['api'], 'feat': case['feat'], 'doc': text.encode('utf-8')}
+            for k, v in opt.items():
+                if k.startswith('ent:'): req[k] = v.encode()
+            try:
+                resp = ex.request(req, timeout=480)
+                return ('EXC\tFOREIGN' not in resp), 'foreign exception' if 'EXC\tFOREIGN' in resp else 'ok'
+            except xv.ExecutorDied as e:
+                if e.rc == -9 and 'ERROR' not in e.stderr: return True, 'inconclusive: watchdog'
+                return False, 'executor died rc=%s\n%s' % (e.rc, e.stderr[-3000:])
+        return True, 'unknown hostile document'
     if 'doc_file' in case:      # raw regression document (no configuration bytes): run it under a spread of configurations
         data = open(os.path.join(xv.VERIF, case['doc_file']), 'rb').read()
         tgt = case.get('target', 'fz_parse')
